@@ -36,8 +36,12 @@ try:
     rc, out = sh(["git", "apply", os.path.join(seed, "patch.diff")], cwd=wt)
     res["patch_applies"] = rc == 0
     if rc != 0: res["patch_out"] = out[-1500:]
-    rc, out = sh(["go", "build", "./..."], cwd=wt)
+    # everything except the cgo packages (they need the emulator library, which is emptied in this sandbox)
+    rc, lst = sh(["go", "list", "./..."], cwd=wt)
+    pk = [x for x in lst.split() if not re.search(r"/(examples|tvm|txemulator)(/|$)", x)]
+    rc, out = sh(["go", "build"] + pk, cwd=wt, e=dict(env, CGO_ENABLED="0"))
     res["builds"] = rc == 0
+    if rc != 0: res["build_out"] = out[-1500:]
     rc, out = sh(meta["demo_run"].split(), cwd=wt)
     res["demo_patched_fails"] = rc != 0
     os.remove(demo_dst)
